@@ -15,8 +15,8 @@ func (c *WebserverConfig) setRestartNeededProps() {
 }
 
 func (c *WebserverConfig) verify() error {
-	if c.Listen.Read() == "" {
-		return fmt.Errorf("webserver.listen cannot be empty")
+	if err := verifyListenAddress("webserver.listen", c.Listen.Read()); err != nil {
+		return err
 	}
 	if c.ApiDisabled.Read() && !c.DashboardDisabled.Read() {
 		// The dashboard needs the API; starting with this combination aborts the process.
